@@ -22,6 +22,7 @@
 #include <atomic>
 #include <thread>
 #include <utility>
+#include "celma/common/detail/verif_hooks.hpp"
 
 
 namespace celma { namespace common {
@@ -70,7 +71,7 @@ public:
 private:
    /// Flag, set by the thread before the thread function is executed, cleared
    /// when the thread function returnes, i.e. finished its work.
-   std::atomic< bool>  mActive{ false};
+   std::atomic< bool>  mActive{ CELMA_VERIF_SYNC_INIT( "managed.init", false)};
 
 }; // ManagedThread
 
@@ -85,8 +86,12 @@ template< class Function, class... Args>
                    ( Args&&... lbd_args)
                      noexcept( noexcept( f( std::forward< Args>( lbd_args)...)))
                    {
+                      CELMA_VERIF_SYNC( "managed.store_true");
                       flag->store( true, std::memory_order_release);
+                      CELMA_VERIF_SYNC( "managed.f_begin");
                       func( std::forward< Args>( lbd_args)...);
+                      CELMA_VERIF_SYNC( "managed.f_end");
+                      CELMA_VERIF_SYNC( "managed.store_false");
                       flag->store( false, std::memory_order_release);
                    },
                    std::forward< Args>( args)...)
